@@ -19,6 +19,7 @@ class BaseEngine:
         self._sentinel = object()
         self._rtc = rtc
         self._processing = Lock()
+        self._initial_trigger = None
 
     def put(self, trigger_data: TriggerData):
         """Put the trigger on the queue without blocking the caller."""
@@ -32,6 +33,8 @@ class BaseEngine:
             machine=self.sm,
             event=BoundEvent("__initial__", _sm=self.sm),
         )
+        # only this very trigger activates the initial state, not an event that a user names alike
+        self._initial_trigger = trigger_data
         self.put(trigger_data)
 
     def _initial_transition(self, trigger_data):
